@@ -368,6 +368,7 @@ type srcPlan struct {
 	Reuse       int // 0: fresh Reader; 1: the Reader handled another message before and was Reset
 	PrevKind    int // index into prevMessages
 	PrevSrc     int // 0 bytes.Reader, 1 plain (ReadByte hidden), 2 chunked io.ByteReader, 3 chunked plain, 4 bufio.Reader
+	Dtor        int // decompressor: 0 flate.NewReader (Close, no Reset(io.Reader)); 1 Read only; 2 Read+Close+Reset(io.Reader)
 }
 
 func genSrcPlan(t *rapid.T, label string) srcPlan {
@@ -380,6 +381,7 @@ func genSrcPlan(t *rapid.T, label string) srcPlan {
 		Reuse:       rapid.SampledFrom([]int{0, 0, 1}).Draw(t, label+".reuse"),
 		PrevKind:    rapid.IntRange(0, len(prevMessages)-1).Draw(t, label+".prevkind"),
 		PrevSrc:     rapid.IntRange(0, 4).Draw(t, label+".prevsrc"),
+		Dtor:        rapid.IntRange(0, 2).Draw(t, label+".dtor"),
 	}
 }
 
@@ -401,12 +403,31 @@ func (s srcPlan) class() string {
 
 type onlyReader struct{ io.Reader }
 
+// Decompressor capabilities: Read is required; Close and Reset(io.Reader) are optional.
+type readOnlyDecompressor struct{ io.Reader }
+
+type resettableDecompressor struct{ io.ReadCloser }
+
+func (d resettableDecompressor) Reset(r io.Reader) { d.ReadCloser.(flate.Resetter).Reset(r, nil) }
+
+func dtorFor(kind int) func(io.Reader) wsflate.Decompressor {
+	switch kind {
+	case 1:
+		return func(r io.Reader) wsflate.Decompressor { return readOnlyDecompressor{flate.NewReader(r)} }
+	case 2:
+		return func(r io.Reader) wsflate.Decompressor { return resettableDecompressor{flate.NewReader(r)} }
+	}
+	return flateDtor
+}
+
 // prevMessages: what a reused Reader handled before its Reset.
 type prevMessage struct {
 	Name       string
 	Compressed []byte
 	Want       []byte
 	ReadOnly   int // > 0: the application abandons the message after this many bytes
+	Fails      bool  // the message cannot be read (corrupt / cut / source error): read until it fails, outcome not judged
+	SrcErr     error // the source ends with this error instead of io.EOF
 }
 
 var prevMessages = func() []prevMessage {
@@ -424,11 +445,15 @@ var prevMessages = func() []prevMessage {
 	warm := []byte("warm-up message")
 	large := randomBytes(77, 100<<10)
 	return []prevMessage{
-		{"sync-flushed, read to the end", deflate(warm, false), warm, 0},
-		{"ended by Close without Flush (final block), read to the end", deflate(warm, true), warm, 0},
-		{"RFC 7692 §7.2.3.4 BFINAL form with the trailing 00, read to the end", []byte{0xf3, 0x48, 0xcd, 0xc9, 0xc9, 0x07, 0x00, 0x00}, []byte("Hello"), 0},
-		{"large message abandoned after its first bytes", deflate(large, false), large, 10},
-		{"small message abandoned after 3 bytes", deflate(warm, false), warm, 3},
+		{"sync-flushed, read to the end", deflate(warm, false), warm, 0, false, nil},
+		{"ended by Close without Flush (final block), read to the end", deflate(warm, true), warm, 0, false, nil},
+		{"RFC 7692 §7.2.3.4 BFINAL form with the trailing 00, read to the end", []byte{0xf3, 0x48, 0xcd, 0xc9, 0xc9, 0x07, 0x00, 0x00}, []byte("Hello"), 0, false, nil},
+		{"large message abandoned after its first bytes", deflate(large, false), large, 10, false, nil},
+		{"small message abandoned after 3 bytes", deflate(warm, false), warm, 3, false, nil},
+		{"corrupt bytes", []byte{0xff, 0xff, 0xff, 0xfe, 0x12, 0x34, 0x56}, nil, 0, true, nil},
+		{"large message cut before its end", deflate(large, false)[:50<<10], nil, 0, true, nil},
+		{"small message cut before its end", deflate(warm, false)[:5], nil, 0, true, nil},
+		{"source error in the middle of a message", deflate(large, false)[:30<<10], nil, 0, true, tx.ErrInjected},
 	}
 }()
 
@@ -468,12 +493,26 @@ func decompress(compressed []byte, s srcPlan) ([]byte, string) {
 	}
 	var rd *wsflate.Reader
 	if s.Reuse == 0 {
-		rd = wsflate.NewReader(src, flateDtor)
+		rd = wsflate.NewReader(src, dtorFor(s.Dtor))
 	} else {
 		// documented reuse: "Reader might be reused for different io.Reader objects after its Reset()"
 		pm := prevMessages[s.PrevKind]
-		rd = wsflate.NewReader(prevSource(s.PrevSrc, pm.Compressed), flateDtor)
-		if pm.ReadOnly > 0 {
+		psrc := prevSource(s.PrevSrc, pm.Compressed)
+		if pm.SrcErr != nil {
+			es := tx.NewSrc(pm.Compressed, []int{4096})
+			es.End = pm.SrcErr
+			psrc = es
+			if s.PrevSrc%2 == 0 {
+				psrc = tx.ByteSrc{Src: es}
+			}
+		}
+		rd = wsflate.NewReader(psrc, dtorFor(s.Dtor))
+		if pm.Fails {
+			io.Copy(io.Discard, rd) // whatever it reports — the next message is what is judged
+			if s.PrevSrc == 1 {
+				rd.Close()
+			}
+		} else if pm.ReadOnly > 0 {
 			p := make([]byte, pm.ReadOnly)
 			if n, err := io.ReadFull(rd, p); err != nil || !bytes.Equal(p[:n], pm.Want[:n]) {
 				return nil, fmt.Sprintf("previous message (%s, source kind %d): first %d bytes: %x, %v", pm.Name, s.PrevSrc, pm.ReadOnly, p[:n], err)
